@@ -13,6 +13,8 @@ ID = "C20"
 TITLE = "Schema validation reports every type-system violation and never crashes"
 BOUNDS = {
     "quick": (
+        "wrapped type references in named-type positions (programmatic, 4 wrappers x 4 positions x with/without the cooperating shape); "
+        "five request shapes against every invalid schema; base declared valid and then extended (split_base_av); "
         "216-entry menu (170 rule violations covering 42 rule classes in all variants + 46 legal near-misses; 127 "
         "'primary' violation entries = without the secondary literal/type variants). Base 'full' (12 definitions + "
         "directive), roots declared as schema{..} + extend schema @d + extend schema{..}: every single and every "
